@@ -691,9 +691,15 @@ def e7(e: Engine, rep: Report):
 
 # ---------------------------------------------------------------------- E8
 def e8(e: Engine, rep: Report):
+    text_escape(e, rep, 'E8', e.method_ctx(ENV, 'parse'), 'parse()',
+                '`%s` raises for input with bytes outside its codec (the '
+                'parser hands 8-bit bytes on as surrogate escapes): '
+                'Envelope.parse fails on a message it used to accept')
+
+
+def text_escape(e: Engine, rep: Report, rule, ctx, short, what, deny=()):
     from . import c11
     rep.tables.add('c11.TEXT_RAISES')
-    ctx = e.method_ctx(ENV, 'parse')
 
     def raises(b, n, r):
         if n.kind != 'call' or (r is not None and r.targets):
@@ -713,7 +719,8 @@ def e8(e: Engine, rep: Report):
                 str(enc.value).lower() in c11.TOTAL_CODECS)):
             return set()
         return set(toks)
-    g = e.build(ctx, inline=e.inline_same_self(), raises=raises, max_depth=4)
+    g = e.build(ctx, inline=e.inline_same_self(deny=list(deny)),
+                raises=raises, max_depth=4)
     where = ctx.func.qname
     rep.functions.add(where)
     reach = dataflow.reachable(g)
@@ -727,16 +734,13 @@ def e8(e: Engine, rep: Report):
                 esc.setdefault(l[1], n)
     rep.evaluations += 1
     if not esc:
-        rep.ok('E8', where, 'no strict text conversion on the way',
-               reason='every encode / decode below parse() is total, '
-               'lenient or handled', loc=ctx.func.loc())
+        rep.ok(rule, where, 'no strict text conversion on the way',
+               reason='every encode / decode below %s is total, '
+               'lenient or handled' % short, loc=ctx.func.loc())
     for t, n in sorted(esc.items()):
         pth = dataflow.find_path(g, g.entry, lambda x: x is n)
-        rep.bad('E8', where, '%s leaves parse()' % t.rpartition('.')[2],
-                '`%s` raises for input with bytes outside its codec (the '
-                'parser hands 8-bit bytes on as surrogate escapes): '
-                'Envelope.parse fails on a message it used to accept'
-                % n.text(50), loc=n.loc(),
+        rep.bad(rule, where, '%s leaves %s' % (t.rpartition('.')[2], short),
+                what % n.text(50), loc=n.loc(),
                 witness=dataflow.render_path(pth, 10) if pth else None)
 
 
